@@ -8,7 +8,30 @@ reply paths is scripted (ok | SerializationError | PayloadExceededError | Transp
 behaviours x 1-3 concurrent invocations x INTERRUPT before / between / after; every observation line is compared with the
 Lean model, the implementation's trace is judged by the Lean trace Spec through the driver.
 Tie (part B): the four real transports (WebSocket / RawSocket x Twisted / asyncio) with real serializers and negotiated
-size limits, wired to an independent peer in memory (harness/workers/c10_real.py).
+size limits, wired to an independent peer in memory (harness/workers/sess_real.py, vlib/wampreal.py).
+
+Self-test (tools_selftest_sess.py: single-edit mutations of a scratch copy of /repo/src, `VERIF_REPO=<copy> ./check C10
+--tier quick`; every mutation exit 1 with a concrete replay, the harmless rewrite exit 0; n8 / n9 also change the send()
+table generated from the source, so `fallback_covers_partial` no longer builds):
+  c10-n1-yield-sent-twice                                    exit 1  keys: reply-unsolicited:pending-result, reply-unsolicited:pending-result+progress …
+      replay: open pump m.welcome,6072304108330602 reg,1,6,n,ok m.registered,1,70 m.invocation,101,70,n,k1=7.2=8,1;rp resolve,101,ca1.2/k1=2
+  c10-n2-no-error-when-endpoint-raises                       exit 1  keys: no-reply:pending-result, no-reply:pending-result+progress …
+      replay: open pump m.welcome,3332160056411134 reg,1,2,n,ok m.registered,1,70 m.invocation,101,70,a5.6,k,0;rp fail,101,r
+  c10-n3-progress-although-not-requested                     exit 1  keys: endpoint-args:pending-result, endpoint-args:pending-result+progress …
+      replay: open pump m.welcome,3407021444395468 reg,1,1,oda=0,ok m.registered,1,70 m.invocation,101,70,a5.6,k1=7.2=8,0;rp
+  c10-n4-interrupt-ignored                                   exit 1  keys: cancelled-yields:pending-result+progress:interrupt, cancelled-yields:pending-result:interrupt …
+      replay: open pump m.welcome,4723873148776609 reg,1,6,n,ok m.registered,1,70 m.invocation,102,70,a5.6,k,1;rp~p7 m.interrupt,102 resolve,102,v3 pump
+  c10-n5-details-injected-although-not-requested             exit 1  keys: endpoint-args:pending-result, endpoint-args:pending-result+progress …
+      replay: open pump m.welcome,3332160056411134 reg,1,2,n,ok m.registered,1,70 m.invocation,101,70,a5.6,k,0;rp
+  c10-n6-duplicate-invocation-id-accepted                    exit 1  keys: invocation-not-rejected:pending-result
+      replay: open pump m.welcome,1189764082832528 reg,1,2,n,ok m.registered,1,70 m.invocation,101,70,a5.6,n,0;rp m.invocation,101,70,n,n,0;r
+  c10-n7-no-fallback-for-serialization-error                 exit 1  keys: no-reply:pending-result, no-reply:pending-result+progress:send=big …
+      replay: open pump m.welcome,1487131682405591 reg,1,4,oda=0,ok m.registered,1,70 m.invocation,103,70,a5.6,k1=7.2=8,1;rp+unreg,0,ok fault,ser.ok pump resolve,103,ca1/k
+  c10-n8-websocket-send-lets-serializer-exception-through    exit 1  keys: no-reply:pending-result:send=other, no-reply:returns+progress:send=other …
+      replay: open pump m.welcome,7 pump reg,1,4,oda=0,ok pump m.registered,1,70 pump m.invocation,9,70,a1,k1=2,0;rp pump resolve,9,Uo pump
+  c10-n9-f14-reintroduced-asyncio-rawsocket-valueerror       exit 1  keys: no-reply:pending-result:send=other, no-reply:returns+progress:send=other …
+      replay: open pump m.welcome,7 pump reg,1,4,oda=0,ok pump m.registered,1,70 pump m.invocation,9,70,a1,k1=2,0;rp pump resolve,9,S1224 pump
+  c10-h1-harmless-reply-built-in-two-steps                   exit 0  silent
 """
 import itertools
 
@@ -39,8 +62,35 @@ MANIFEST_ENTRY = {
     "technique": "Lean 4 theorems over arbitrary event histories of an executable session model (callee part) + executable "
                  "trace Spec judged on real traces + differential tie to Twisted/asyncio sessions over mock and real "
                  "in-memory transports, ddmin",
-    "text": "see lean/Abverif/Proofs/C10.lean",
-    "note": "see the docstring of harness/c10.py",
+    "text": "Proved in Lean: at_most_one_terminal_reply — for EVERY event history, both txaio scheduling modes, whatever "
+            "endpoints, user code, the transport and send() do, the terminal replies (non-progressive YIELD, ERROR) sent for "
+            "a request id never outnumber the endpoint calls made for it, and an id still in _invocations has one reply less "
+            "(accounting relation carried through every step of the model: a terminal reply is sent only by the success/error "
+            "closure, which first removes the id; the id gets there only through an accepted INVOCATION); "
+            "reply_sent_exactly_once — when the closure runs with the transport up, a covered send() plan (accepted, or "
+            "refused as unserializable / oversize with the fallback ERROR accepted) and an outcome an ERROR can be built from, "
+            "exactly one terminal reply goes out and the id leaves _invocations; reply_content (YIELD carries the return "
+            "value, CallResult unpacked; ERROR the exception's URI/args/kwargs); endpoint_args_exact (the endpoint is called "
+            "first thing with exactly the caller's args/kwargs plus CallDetails under its own details_arg iff registered "
+            "with one, progress callable iff the caller asked); progress_only_if_asked, progress_before_terminal_in_step; "
+            "duplicate_invocation_is_violation, unknown_registration_is_violation (ProtocolError, nothing changes); "
+            "interrupt_yields_error, interrupt_ignored. The send() classification of the four transports is REGENERATED from "
+            "the source on every run (translate/sendtab.py) and measured on the real transports: fallback_covers_partial "
+            "(WebSocket both frameworks, asyncio RawSocket) proved, fallback_covers_fails_rsTwisted proved. OneTerminalReply "
+            "(exactly one once the outcome is known, the loop idle, the transport up) is stated in full and refuted by decide "
+            "on three histories (send() raising another class; an oversize result whose fallback ERROR is refused as well; an "
+            "exception no ERROR can be built from); ProgressBeforeTerminal refuted by U2. Tie: 709 (quick) scripts of endpoint "
+            "behaviours x 1-3 concurrent invocations x INTERRUPT before/between/after x scripted send() plans on a mock "
+            "transport, both frameworks, observation-exact; and the four real transports x json/msgpack/cbor x negotiated "
+            "limits 2^10..2^12 (at 2^9 not even HELLO fits) with real unserializable (object, set, lone surrogate) and "
+            "oversize results, messages per request id decoded by an independent peer, equal to the model's.",
+    "note": "Trusted: Lean kernel; the hand-written model and trace Spec; txaio semantics as modelled; serializers and size "
+            "checks exercised, not modelled. Known findings (known_findings.d/C10.jsonl): U2 (late progress), "
+            "error-path:encode-raises:no-reply, and two found here on the real transports: an oversize result gets NO reply "
+            "on any transport because the fallback ERROR repeats the result's repr and is refused too; on the Twisted "
+            "RawSocket an unserializable result gets no reply because send() lets the serializer's own exception through. "
+            "Ledger F14 (asyncio RawSocket ValueError) is repaired in /repo 11645fb6: the generated and the measured table "
+            "say PayloadExceededError; re-introducing it breaks fallback_covers_partial and the measured table.",
 }
 
 C10_VIOLS = ("reply-unsolicited", "no-reply", "late-progress", "progress-unasked", "endpoint-args",
